@@ -200,6 +200,17 @@ func C15(t Tier) int {
 								{"create-topic-then-delete-denom-holding-a-token-of-B", []sdk.Msg{aoltypes.NewMsgCreateTopic("x15", "", e.A.Bech), pnfttypes.NewMsgDeleteDenomRequest("d", e.A.Bech)}},
 								{"hand-over-denom-then-mint", []sdk.Msg{pnfttypes.NewMsgTransferRequest("d", e.A.Bech, e.B.Bech), pnfttypes.NewMsgMintPNFTRequest("d", "t8", "n", "", "", "", e.A.Bech, "")}},
 								{"delete-writer-then-add-writer-twice", []sdk.Msg{aoltypes.NewMsgDeleteWriter("a", e.W.Bech, e.A.Bech), aoltypes.NewMsgAddWriter("a", "w", "", e.W.Bech, e.A.Bech), aoltypes.NewMsgAddWriter("a", "w", "", e.W.Bech, e.A.Bech)}},
+								// the DID of the populated base is at sequence 0: after the update the deactivation (or the same update again) is
+								// proven over a sequence that is no longer current, so the third message fails and nothing may stay
+								{"create-topic-then-update-did-then-deactivate-over-the-stale-sequence", []sdk.Msg{aoltypes.NewMsgCreateTopic("y15", "", e.A.Bech),
+									&didtypes.MsgUpdateDIDRequest{Did: e.Did, Document: k.doc("D5", e.Did), VerificationMethodId: k.vmID(e.Did, 1), Signature: k.sign(k.doc("D5", e.Did), 0, 1), FromAddress: e.A.Bech},
+									&didtypes.MsgDeactivateDIDRequest{Did: e.Did, VerificationMethodId: k.vmID(e.Did, 1), Signature: k.sign(&didtypes.DIDDocument{Id: e.Did}, 0, 1), FromAddress: e.A.Bech}}},
+								{"create-topic-then-the-same-did-update-twice", []sdk.Msg{aoltypes.NewMsgCreateTopic("z15", "", e.A.Bech),
+									&didtypes.MsgUpdateDIDRequest{Did: e.Did, Document: k.doc("D5", e.Did), VerificationMethodId: k.vmID(e.Did, 1), Signature: k.sign(k.doc("D5", e.Did), 0, 1), FromAddress: e.A.Bech},
+									&didtypes.MsgUpdateDIDRequest{Did: e.Did, Document: k.doc("D5", e.Did), VerificationMethodId: k.vmID(e.Did, 1), Signature: k.sign(k.doc("D5", e.Did), 0, 1), FromAddress: e.A.Bech}}},
+							}
+							if len(ex) > len(menu) {
+								panic("c15: more explicit transactions than menu entries to index them")
 							}
 							if cur[0] >= len(ex) {
 								continue
